@@ -22,6 +22,17 @@ Arguments N.odd : simpl never.
 Arguments N.land : simpl never.
 Arguments N.testbit : simpl never.
 
+(* lia after dropping hypotheses that are equations between opaque booleans (each one doubles lia's case analysis) *)
+Ltac slia :=
+  repeat match goal with
+         | H : ?b = _ |- _ =>
+           match type of b with bool =>
+             lazymatch b with
+             | N.eqb _ _ => fail | N.leb _ _ => fail | N.ltb _ _ => fail | (if _ then _ else _) => fail
+             | _ => clear H
+             end end
+         end; lia.
+
 Section C.
 Variables (inp : input) (lenient : bool) (ms : N).
 Variable lossless : N -> N -> bytes -> res unit.
@@ -655,7 +666,7 @@ Proof.
                      '(b, r2) <~ read_data 10 (L (AIn h1 e1) fr1 (12 + 8)) ;;
                      x <~ lift (parse_vp8x b) ;; sanitize_extended lossless allow fuel x r2
                    else Ret (EParse InvalidChunkLayout)) (12 + 8) = (Ok (L a2 fr1 p2), p2)
-            /\ ready a2 fr1 p2 o2 e /\ tiles' o2 e rest /\ tail_ok allow rest = true /\ 12 + 8 <= o2).
+            /\ ready a2 fr1 p2 o2 e /\ tiles' o2 e rest /\ tail_ok allow rest = true).
   { change (geq (ch_name h1) gVP8) with (teq (ch_name h1) VP8) in Hseq.
     change (geq (ch_name h1) gVP8L) with (teq (ch_name h1) VP8L) in Hseq.
     change (geq (ch_name h1) gVP8X) with (teq (ch_name h1) VP8X) in Hseq.
@@ -663,34 +674,33 @@ Proof.
       [|destruct (teq (ch_name h1) VP8X) eqn:E3; [|discriminate]]].
     - destruct (skip_data_go h1 e1 fr1 (12 + 8) Hlh Hbo1) as (a2 & p2 & X & Hl2 & Hd).
       exists a2, p2, (e1 + pad_of h1), r. split; [exact X|]. split; [eapply done_ready; eauto|].
-      split; [exact Ht1|]. split; [exact Hseq | lia].
+      split; [exact Ht1|]. exact Hseq.
     - apply andb_prop in Hseq. destruct Hseq as [Hv Hseq].
       destruct (do_vp8l_complete None h1 e1 fr1 (12 + 8) (chunk_at' 12) Hlh Hbo1 eq_refl
                   ltac:(rewrite wlen_chunk_at; fold h1; lia) Hv) as (a2 & p2 & X & Hl2 & Hd).
       exists a2, p2, (e1 + pad_of h1), r. split; [exact X|]. split; [eapply done_ready; eauto|].
-      split; [exact Ht1|]. split; [exact Hseq | lia].
+      split; [exact Ht1|]. exact Hseq.
     - rewrite extended_ok_alt in Hseq. rewrite wlen_chunk_at in Hseq. fold h1 in Hseq. cbn [w_off chunk_at] in Hseq.
       apply andb_prop in Hseq. destruct Hseq as [Hseq Hext]. apply andb_prop in Hseq. destruct Hseq as [H10 Hcond].
       cbv zeta in Hext.
       destruct (has_flags_testbit (le inp (12 + 8) 1)) as (T5 & T4 & T3 & T2 & T1).
       rewrite <- T5, <- T4, <- T3, <- T2, <- T1 in Hext.
       match type of Hext with match ?Y with _ => _ end = _ => destruct Y as [cs4|] eqn:Eseq; [|discriminate] end.
-      assert (Ee1 : e1 = 12 + 8 + 10) by lia.
-      destruct (body_ok_fits h1 e1 fr1 e1 Hbo1 ltac:(lia)) as [Hfe1 Hie1].
-      rewrite exec_bind, (read_data_go 10 h1 e1 fr1 (12 + 8) ltac:(lia) Hlh); try lia.
+      assert (Ee1 : e1 = 12 + 8 + 10) by slia.
+      destruct (body_ok_fits h1 e1 fr1 e1 Hbo1 ltac:(slia)) as [Hfe1 Hie1].
+      rewrite exec_bind, (read_data_go 10 h1 e1 fr1 (12 + 8) ltac:(slia) Hlh); try slia.
       2:{ rewrite <- Ee1. exact Hfe1. }
       cbn [ebind]. change (N.to_nat 10) with 10%nat.
       rewrite exec_bind, exec_lift, parse_vp8x_spec, Hcond. cbn [ebind]. rewrite <- Ee1.
       assert (Hrx : ready (AIn h1 e1) fr1 e1 (e1 + pad_of h1) e).
-      { apply (done_ready h1 e1 (AIn h1 e1) e1 fr1 e); auto; [left; auto | split; [exact Hfe1 | cbn [ainv]; lia]]. }
+      { apply (done_ready h1 e1 (AIn h1 e1) e1 fr1 e); auto; [left; auto | split; [exact Hfe1 | cbn [ainv]; slia]]. }
       destruct (extended_complete fuel (vp8x_at inp (12 + 8)) _ fr1 e1 _ e r cs4 Hrx Ht1 Eseq) as (a2 & p2 & o2 & X & Hr2 & Ht2).
-      { eapply fuel_weaken; [exact Hfu0 | lia | lia]. }
+      { eapply fuel_weaken; [exact Hfu0 | slia | slia]. }
       { exact Hm1. }
-      exists a2, p2, o2, cs4. split; [exact X|]. split; [exact Hr2|]. split; [exact Ht2|]. split; [exact Hext|].
-      destruct Hr2 as [_ _ _ _ _ _ _]. admit. }
-  destruct K as (a2 & p2 & o2 & rest & X & Hr2 & Ht2 & Hok & Ho2). rewrite exec_bind, X. cbn [ebind].
+      exists a2, p2, o2, cs4. split; [exact X|]. split; [exact Hr2|]. split; [exact Ht2|]. exact Hext. }
+  destruct K as (a2 & p2 & o2 & rest & X & Hr2 & Ht2 & Hok). rewrite exec_bind, X. cbn [ebind].
   destruct (file_tail_complete fuel a2 fr1 p2 o2 e rest Hr2 Ht2 Hok) as (n & X3); [|exact Hm1|].
-  { eapply fuel_weaken; [exact Hfu0 | lia | lia]. }
+  { unfold fuel_ok. assert ((e - o2) / 8 <= ilen inp / 8) by (apply N.div_le_mono; lia). lia. }
   rewrite exec_bind, X3. cbn [ebind]. rewrite exec_bind, exec_lift. unfold fr1. rewrite parent_L. cbn [ebind].
   assert (Hl3 : linv' (AIn h e) [] e) by (split; [apply fits_nil | cbn [ainv]; lia]).
   rewrite exec_bind, (has_remaining_go (AIn h e) [] e Hl3 (body_ok_padreq h e [] Hbo0)).
@@ -698,6 +708,6 @@ Proof.
   unfold more. cbn [fitsb forallb andb]. replace (e + pad_of h <? ilen inp) with false by lia.
   rewrite exec_bind, exec_pos. cbn [ebind]. rewrite exec_bind, exec_len. cbn [ebind].
   replace (ilen inp <? e + pad_of h) with false by lia. rewrite exec_ret. eauto.
-Admitted.
+Qed.
 
 End C.
